@@ -73,6 +73,7 @@ InjectAll(q, rx) ==
                    must == q[s] = <<>> /\ g.size <= sc.rxp /\ sc.rxm >= 1
                IN InjectAll([q EXCEPT ![s] = Append(@, [did |-> g.did, must |-> must, size |-> g.size, src |-> g.src, sport |-> g.sport, dst |-> g.dst])], Tail(rx))
 
+Big(x) == V6 /\ x.iplen > cfg.mtu
 \* ---- emitted frames: fold with state a = [lrn (unchanged), disc, wpos, v]
 OutStep(a, o, now) ==
   LET P(r, ok, x) == IF ok THEN <<>> ELSE << <<l, r>> \o x >>
@@ -101,7 +102,11 @@ OutStep(a, o, now) ==
                    q == acc[s]
                    pos == a.wpos[s]
                    j == Idx(q, LAMBDA x : x.did = o.did)
-                   d1 == IF j = pos + 1 THEN <<>>
+                   \* the next datagram due on the wire: the first one behind the last sent that the link can carry
+                   \* (IPv6 datagrams longer than the IP MTU are dropped by the stack, the statement's "fits the link")
+                   cand == {k \in (pos + 1)..Len(q) : ~Big(q[k])}
+                   nxt == IF cand = {} THEN 0 ELSE CHOOSE k \in cand : \A k2 \in cand : k <= k2
+                   d1 == IF j # 0 /\ j = nxt THEN <<>>
                          ELSE IF j # 0 /\ j <= pos THEN << <<l, "D2", s, o.did>> >>          \* already transmitted once
                          ELSE << <<l, "D1", s, o.did, j, pos>> >>                              \* out of queue order / unknown
                    d4 == IF j = 0 THEN <<>> ELSE P("D4", o.pd = -1 /\ o.size = q[j].size /\ o.dst = q[j].dst /\ o.dport = q[j].dport /\ o.cs /\ o.wf, <<s, o.did, o.pd, o.size>>)
@@ -118,7 +123,7 @@ Step ==
             /\ run' = r.run /\ cfg' = r.cfg /\ viol' = <<>> /\ nruns' = nruns + 1 /\ hits' = hits
             /\ learned' = <<>> /\ lastDisc' = <<>> /\ acc' = [s \in SOCKS |-> <<>>] /\ wpos' = [s \in SOCKS |-> 0] /\ rxq' = [s \in SOCKS |-> <<>>]
        [] r.ev = "api" /\ r.call = "send" ->
-            /\ acc' = IF r.err = "none" THEN [acc EXCEPT ![r.sock] = Append(@, [did |-> r.did, size |-> r.size, dst |-> r.dst, dport |-> r.dport, t |-> r.now])] ELSE acc
+            /\ acc' = IF r.err = "none" THEN [acc EXCEPT ![r.sock] = Append(@, [did |-> r.did, size |-> r.size, dst |-> r.dst, dport |-> r.dport, t |-> r.now, iplen |-> IF "iplen" \in DOMAIN r THEN r.iplen ELSE 0])] ELSE acc
             /\ UNCHANGED <<run, cfg, viol, hits, nruns, learned, lastDisc, wpos, rxq>>
        [] r.ev = "api" /\ r.call = "recv" ->
             LET s == r.sock
@@ -165,11 +170,14 @@ Step ==
                /\ UNCHANGED <<run, cfg, nruns, acc>>
        [] r.ev = "end" ->
             LET \* D3/N4: per socket, walk the accepted datagrams in order while their next hop answers ARP
-                RECURSIVE Need(_, _, _)
-                Need(q, i, now) == IF i > Len(q) THEN Len(q)
-                                   ELSE LET nh == NextHop(q[i].dst, q[i].t) IN
-                                        IF nh # <<>> /\ Answers(nh) /\ NextHop(q[i].dst, now) = nh THEN Need(q, i + 1, now) ELSE i - 1
-                miss == {s \in SOCKS : Need(acc[s], 1, r.now) > wpos[s]}
+                \* index of the last datagram that has to have been sent: the leading run of datagrams whose next hop
+                \* answers, datagrams too long for the link skipped
+                RECURSIVE Need(_, _, _, _)
+                Need(q, i, now, last) == IF i > Len(q) THEN last
+                                         ELSE IF Big(q[i]) THEN Need(q, i + 1, now, last)
+                                         ELSE LET nh == NextHop(q[i].dst, q[i].t) IN
+                                              IF nh # <<>> /\ Answers(nh) /\ NextHop(q[i].dst, now) = nh THEN Need(q, i + 1, now, i) ELSE last
+                miss == {s \in SOCKS : Need(acc[s], 1, r.now, 0) > wpos[s]}
                 ms == CHOOSE s \in miss : TRUE
                 mnh == NextHop(acc[ms][wpos[ms] + 1].dst, r.now)
                 solicited == \E i \in 1..Len(lastDisc) : lastDisc[i].tpa = mnh
